@@ -12,4 +12,6 @@ def run(ctx, L, tier):
     R.f17_raw(ctx, L)
     M.dynamic_predicates(ctx, L)
     M.size_formulas(ctx, L)      # the swap advances by the model's block alignments (PROPHY_STRUCT(N) partK, align<N>): they must be the documented ones
+    from . import c20
+    c20.shared_state(ctx, L)        # no state that survives from one compiled file / call to the next (module, class, closure, default argument)
     return sorted(set(o.rule for o in L.obligations))
